@@ -148,7 +148,7 @@ func CheckC06(run *evid.Run) {
 func init() { childFns["C06"] = c06Child }
 
 func c06Child(run *evid.Run, batch, nb int, j *Journal) {
-	total := pick(run.Tier, 320, 6400)
+	total := pick(run.Tier, 1600, 24000)
 	for i := batch; i < total; i += nb {
 		c06Case(run, i, j)
 	}
